@@ -16,9 +16,12 @@
 //!      sequence must equal it.  If O1 and O2 disagree with each other the case is INCONCLUSIVE.
 //!  O3  differential: the generator also writes ONE text with every file's lines in place
 //!      (scanner-state neutral by construction, see gen.rs); the same VM must print the same on it.
-//!  O4  nesting chains: depth <= 95 must succeed exactly, depth >= 102 (and every recursion) must
-//!      end in the documented "too many input levels" error after 95..=101 opened files - never a
-//!      crash, a success or another error -, 96..=101 either way.
+//!  O4  nesting chains: the documented limit is 100 input levels. Whether "100" counts the main
+//!      file is the only ambiguity: a chain of depth <= 99 (100 levels including the main file)
+//!      must succeed under either reading, depth >= 101 (and every recursion) must end in the
+//!      documented "too many input levels" error after 99..=100 opened files - never a crash, a
+//!      success or another error -, depth 100 either way. (The band was 96..=101 at first; a seeded
+//!      off-by-one that refused depth 99 slipped through it and it was tightened.)
 //!  O5  panic oracle on every run; the source stack must be back at its old height after a run
 //!      that ended normally.
 //!
@@ -606,7 +609,7 @@ fn chain_case(idx: u64, rng: &mut Rng, obs: &mut Obs) {
         obs.count(&format!("chain.recursion_refused_after_{k}_files"));
         let well_formed = real.out.starts_with("S ")
             && gen::markers_of(&real.out[2..]).iter().enumerate().all(|(j, m)| *m == format!("R{}", j % cyc));
-        if !(95..=101).contains(&k) || !well_formed {
+        if !(99..=100).contains(&k) || !well_formed {
             obs.violation("chain:recursion-refused-at-wrong-depth-or-output-garbled", det);
         } else {
             obs.count("chain.recursion_refused_with_documented_error");
@@ -652,9 +655,9 @@ fn chain_case(idx: u64, rng: &mut Rng, obs: &mut Obs) {
     }
     let real = run_real(&files, &[], &main);
     obs.nontrivial(&(&files, &main));
-    let class = if d <= 95 {
+    let class = if d <= 99 {
         "must_succeed"
-    } else if d <= 101 {
+    } else if d <= 100 {
         "grey"
     } else {
         "must_be_refused"
@@ -674,7 +677,7 @@ fn chain_case(idx: u64, rng: &mut Rng, obs: &mut Obs) {
         return;
     }
     if c.real.ok {
-        if d >= 102 {
+        if d >= 101 {
             obs.violation("chain:nesting-beyond-the-documented-limit-succeeded", det());
             return;
         }
@@ -692,13 +695,13 @@ fn chain_case(idx: u64, rng: &mut Rng, obs: &mut Obs) {
             obs.violation("chain:unexpected-error", det());
             return;
         }
-        if d <= 95 {
+        if d <= 99 {
             obs.violation("chain:nesting-within-the-limit-refused", det());
             return;
         }
         let k = count_opened(&c.real.out, 'O');
         obs.count(&format!("chain.refused_after_{k}_files"));
-        if !c.tex.out.starts_with(&c.real.out) || !(95..=101).contains(&k) {
+        if !c.tex.out.starts_with(&c.real.out) || !(99..=100).contains(&k) {
             obs.violation("chain:refused-at-wrong-depth-or-output-not-a-prefix", det());
             return;
         }
@@ -925,7 +928,7 @@ impl Monitor for M {
             "Programs stay inside a tiny language (marker words, blanks, newlines, braces, \\relax, \\iftrue/\\iffalse/\\else/\\fi, parameterless \\def, the six primitives); category codes and \\endlinechar are never changed.".into(),
             "Kept out because TeX's own behaviour is a quirk or needs interaction: \\input behind an executed \\endinput on the same line (force_eof is global in TeX82: the NEW file would be cut after one line), a file that ends while conditional text is skipped (TeX: 'Incomplete \\if' error), missing \\input files, file names ended by anything but a blank or the line end, empty terminal lines.".into(),
             "An \\input of a zero-byte file is judged by tex.web §538 ('If the file is empty, it is considered to contain a single blank line').".into(),
-            "Nesting limit: chains up to 95 files must work, from 102 on they must be refused with the documented error; 96..101 may go either way (the code counts its initial empty source).".into(),
+            "Nesting limit (documented: 100 levels): chains up to 99 nested files must work, from 101 on they must be refused with the documented error; exactly 100 may go either way (the only ambiguity is whether the main file counts).".into(),
             "A \\read whose file ends inside a brace group is an error in TeX ('File ended within \\read'); the monitor only requires that the run reports an error there.".into(),
             "\\global\\read is rejected by the code as unsupported and is not probed; local scope of the \\read target is.".into(),
         ]
